@@ -54,18 +54,18 @@ structure Env where
   valid : Obj → Bool
   /-- some `_cast` in the constructor chain of the class raises `ValueError` on these keyword arguments -/
   ctorFails : Nat → Kwargs → Bool
+  /-- class, member name, the keyword value if one was given ↦ the attribute after the constructor ran
+      (the parameter's default when absent — `None`, `[]`, or a schema default; the `_cast` value when present) -/
+  ctorValue : Nat → Nat → Option Val → Val
   /-- the class named `"Cell"` -/
   cellCls : Nat
   /-- `Cell.setup_nml_cell()` -/
   setupCell : Obj → Obj
 
-/-- the constructor: every member gets its keyword value, else `None` (`[]` for a container); keywords that are
-    not member names vanish in `**kwargs_` -/
-def construct (T : Table) (cls : Nat) (kw : Kwargs) (oid : Nat) : Obj :=
-  .mk oid cls ((T.getMembers cls).map (fun m =>
-    (m.name, match lookup kw m.name with
-             | some v => v
-             | none => if m.container then .list [] else .none)))
+/-- the constructor: every member's attribute is set from the keyword of the same name (or the default);
+    keywords that are not member names vanish in `**kwargs_` -/
+def construct (T : Table) (env : Env) (cls : Nat) (kw : Kwargs) (oid : Nat) : Obj :=
+  .mk oid cls ((T.getMembers cls).map (fun m => (m.name, env.ctorValue cls m.name (lookup kw m.name))))
 
 /-- `_check_arg_list`: the first keyword that is not a member name -/
 def firstBadArg (T : Table) (cls : Nat) (kw : Kwargs) : Option Nat :=
@@ -73,7 +73,7 @@ def firstBadArg (T : Table) (cls : Nat) (kw : Kwargs) : Option Nat :=
 
 /-- what the factory hands to `validate()` / returns -/
 def built (T : Table) (env : Env) (cls : Nat) (kw : Kwargs) (oid : Nat) : Obj :=
-  if cls == env.cellCls then env.setupCell (construct T cls kw oid) else construct T cls kw oid
+  if cls == env.cellCls then env.setupCell (construct T env cls kw oid) else construct T env cls kw oid
 
 /-- `component_factory(component_type, validate=flag, **kw)` with `build_time_validation.ENABLED = enabled` -/
 def factory (T : Table) (env : Env) (enabled flag : Bool) (t : TypeArg) (kw : Kwargs) (oid : Nat) :
